@@ -261,6 +261,10 @@ def depends_on(expr, names, fn=None, depth=3):
                 for t in _targets(n.optional_vars):
                     if isinstance(t, ast.Name):
                         assigns.setdefault(t.id, []).append(n.context_expr)
+            elif isinstance(n, ast.Call) and isinstance(n.func, ast.Attribute) and isinstance(n.func.value, ast.Name) and n.func.attr in ("append", "extend", "add", "update", "insert", "appendleft"):
+                # what is put into a container flows into it
+                for a in n.args:
+                    assigns.setdefault(n.func.value.id, []).append(a)
     while work:
         e, d = work.pop()
         for n in ast.walk(e):
@@ -366,7 +370,20 @@ def inline_aliases(fn, interesting):
                     counts[t.id] = counts.get(t.id, 0) + 2
         # (the targets of a comprehension live in the comprehension's own scope: they do not rebind a local of the
         # function, they shadow it inside the comprehension - see `shadow` below)
-    al = {k: v for k, v in defs.items() if counts.get(k) == 1 and interesting(v)}
+    # a local that is changed in place after its definition (digits = []; digits.append(..)) does not stand for the
+    # expression it was bound to
+    mutated = set()
+    for n in walk_no_nested(fn):
+        if isinstance(n, ast.Call) and isinstance(n.func, ast.Attribute) and isinstance(n.func.value, ast.Name) and n.func.attr in (
+            "append", "extend", "add", "update", "insert", "pop", "remove", "clear", "sort", "reverse", "discard", "setdefault", "popitem", "appendleft", "extendleft",
+        ):
+            mutated.add(n.func.value.id)
+        elif isinstance(n, (ast.Assign, ast.AugAssign, ast.Delete)):
+            tgts = n.targets if isinstance(n, (ast.Assign, ast.Delete)) else [n.target]
+            for t in tgts:
+                if isinstance(t, ast.Subscript) and isinstance(t.value, ast.Name):
+                    mutated.add(t.value.id)
+    al = {k: v for k, v in defs.items() if counts.get(k) == 1 and k not in mutated and interesting(v)}
     if not al:
         return fn
     new = clone(fn)
